@@ -648,6 +648,8 @@ func c18c(c *Ctx) {
 					ok, how = true, "len(x) > 0 dominates x[1:]"
 				case lt == "" && ht != "" && hasLit(must, "+("+ht+" < "+lenX+")"):
 					ok, how = true, "i < len(x) dominates x[:i]"
+				case lt == "" && addK.MatchString(ht) && hasLit(must, "+("+subOne(ht)+" < "+lenX+")"):
+					ok, how = true, "i < len(x) dominates x[:i+1]"
 				case lt == "" && strings.HasPrefix(ht, "strings.Index("+xt+",") && hasLit(must, "-("+ht+" < 0)"):
 					ok, how = true, "0 <= strings.Index(x, s) < len(x) dominates x[:i]"
 				case ht == "" && strings.HasPrefix(lt, "strings.Index("+xt+`,"`) && strings.HasSuffix(lt, "+1") && hasLit(must, "-("+strings.TrimSuffix(lt, "+1")+" < 0)") && indexSepLen(lt) == 1:
